@@ -40,6 +40,12 @@ warnings.filterwarnings('ignore')
 
 
 def main(checkers):
+  try:
+    import resource
+    lim = 6 * 1024 ** 3
+    resource.setrlimit(resource.RLIMIT_AS, (lim, lim))
+  except Exception:
+    pass
   payload = json.loads(sys.stdin.read() or '{}')
   fn = payload.get('fn')
   mode = payload.get('mode', 'one')
